@@ -125,7 +125,8 @@ class ExprMixin:
 
     def ev_Attribute(self, e, st, exc):
         sn = static_name(e)
-        if sn is not None and sn.split(".")[0] not in st.env and sn.split(".")[0] not in self.contract.bind:
+        if sn is not None and sn.split(".")[0] not in st.env and sn.split(".")[0] not in self.contract.bind \
+                and not (sn.split(".")[0] == "result" and self.result_sv is not None):
             last = sn.split(".")[-1]
             root = sn.split(".")[0]
             if root in ("di", "DynamicImport") or last in self.bases or last in C.CLASSES:
@@ -584,6 +585,9 @@ class ExprMixin:
             elif smt.is_const(i):
                 safe = smt.Ge(smt.Add(n, i), smt.Int(0))
                 pos = smt.Add(n, i)
+            elif self.spec_mode:
+                # contract clauses index with non-negative positions only (DESIGN 3.3)
+                safe, pos = smt.TRUE, i
             else:
                 safe = smt.And(smt.Le(smt.Sub(smt.Int(0), n), i), smt.Lt(i, n))
                 pos = smt.Ite(smt.Lt(i, smt.Int(0)), smt.Add(n, i), i)
@@ -624,6 +628,8 @@ def _transparent(e):
     if isinstance(e, ast.UnaryOp) and isinstance(e.op, ast.Not):
         return True
     if isinstance(e, ast.Call) and isinstance(e.func, ast.Name) and e.func.id in ("implies", "all", "any"):
+        return True
+    if isinstance(e, ast.Call) and isinstance(e.func, ast.Name) and C.SPECS.get(e.func.id, {}).get("macro"):
         return True
     return False
 
